@@ -23,7 +23,7 @@
      FifoPerProducer  events of one producer are handled in the order sent
      EventuallyRedrawn (liveness, WF on the loop): request ~> served \/ returned *)
 EXTENDS Integers, Sequences, FiniteSets, TLC
-CONSTANTS Prods, InCap
+CONSTANTS Prods, InCap, CbBudget    \* CbBudget: requests the redraw callback may issue itself per behaviour
 VARIABLES Scripts,           \* [Prods -> Seq(op)], chosen in Init
           inputCh, tok, full, retCh,
           lpc, cur, flag,
@@ -40,7 +40,7 @@ InitWith(S) ==
   /\ Scripts = S
   /\ inputCh = <<>> /\ tok = 0 /\ full = FALSE /\ retCh = <<>>
   /\ lpc = "top" /\ cur = <<>> /\ flag = {}
-  /\ ppc = [p \in Prods |-> 1] /\ cb = 1
+  /\ ppc = [p \in Prods |-> 1] /\ cb = CbBudget
   /\ reqs = {} /\ served = {} /\ fullPending = FALSE /\ draws = 0 /\ handled = <<>> /\ result = <<>>
   /\ finals = 0 /\ afterFinal = 0
 
